@@ -22,7 +22,7 @@ func init() {
 
 func hostVariants(s sim.Source, host string, other string) (string, string) {
 	if host == "" {
-		return sim.Pick(s, "nohost", []string{"", "a.b", "zz", "127.0.0.1", "[::1]:80"}), "none"
+		return sim.Pick(s, "nohost", []string{"", "a.b", "zz", "127.0.0.1", "[::1]:80", ":8080", ".", ".:443"}), "none"
 	}
 	labels := strings.Split(host, ".")
 	switch s.Intn("hostvar", 14) {
@@ -57,7 +57,7 @@ func hostVariants(s sim.Source, host string, other string) (string, string) {
 	case 12:
 		return other, "other-host"
 	default:
-		return sim.Pick(s, "literal", []string{"[::1]:80", "127.0.0.1", "", host + ":"}), "literal"
+		return sim.Pick(s, "literal", []string{"[::1]:80", "127.0.0.1", "", host + ":", ":8080", ".", ".:443"}), "literal"
 	}
 }
 
